@@ -339,7 +339,18 @@ def run(check, an: Analysis):
             if event.kind == 'store' and event.get('path') == 'self.key' and \
                     event.depth == 0 and event.data.get('value') is not None:
                 value = rules.value_expr(path, index, event['value'])
-                stored.add(tuple(ast.unparse(e) for e in value.elts[:2])
+                # what the request keeps as its priority and as its time: the key is made
+                # of these two values, whether it reads them from the attributes or from
+                # the locals they were set from
+                kept = {}
+                for pos, before in enumerate(path.events[:index]):
+                    if before.kind == 'store' and before.depth == 0 and \
+                            before.get('path') in ('self.priority', 'self.time') and \
+                            before.data.get('value') is not None:
+                        kept[ast.unparse(rules.value_expr(path, pos, before['value']))] = \
+                            before['path']
+                stored.add(tuple(kept.get(ast.unparse(e), ast.unparse(e))
+                                 for e in value.elts[:2])
                            if isinstance(value, ast.Tuple) else ('?',))
     ok = len(keydef) == 1 and stored == {('self.priority', 'self.time')}
     order = [ast.unparse(s.targets[0]) for s in preq.node.body if isinstance(s, ast.Assign)]
